@@ -3,6 +3,7 @@
 package referenceserver
 
 import (
+	"bytes"
 	"context"
 	"crypto/tls"
 	"crypto/x509"
@@ -40,6 +41,7 @@ func init() {
 	verifKinds["c12.wire"] = verifC12LiveKind
 	verifKinds["c12.events"] = verifC12Events
 	verifKinds["c12.live"] = verifC12Server
+	verifKinds["c12.print"] = verifC12Print
 }
 
 // ---- recording printer: keeps format and arguments, never the rendered text ----
@@ -1298,4 +1300,102 @@ func verifC12Echo(proc int, grpcWeb bool, resp *http.Response, body []byte) vsx 
 		hasGRPC = hasGRPC || strings.EqualFold(h.GetName(), "Grpc-Timeout")
 	}
 	return vL(verifC12Opt(info.TimeoutMs), vBool(hasConnect), vBool(hasGRPC))
+}
+
+// ---- c12.print: the checks over the REAL printer, as run() wires it (internal.NewPrinter over the server's stderr) ----
+
+// the printer handed to referenceServerChecks: every call goes, with the very same prefix, format and
+// arguments, to the real printer; the recording printer next to it only remembers format and arguments
+type verifC12Tee struct {
+	rec  *verifC12Printer
+	real internal.Printer
+}
+
+func (t *verifC12Tee) Printf(msg string, args ...any) {
+	t.rec.Printf(msg, args...)
+	t.real.Printf(msg, args...)
+}
+
+func (t *verifC12Tee) PrefixPrintf(prefix, msg string, args ...any) {
+	t.rec.PrefixPrintf(prefix, msg, args...)
+	t.real.PrefixPrintf(prefix, msg, args...)
+}
+
+var _ internal.Printer = (*verifC12Tee)(nil)
+
+// (request ...) on ONE wrapped handler writing to ONE real printer over a buffer.  Per request: rejected, or
+// (exact, lines): exact = the bytes that reached the buffer are, per message, the test name as the request
+// carries it ++ ": " ++ fmt.Sprintf(format, args...) ++ newline (unless the message ends in one); lines = the
+// bytes read back the way server_runner.go reads the server's stderr (ReadString('\n'), TrimSpace, SplitN at
+// the first ": ", first part among the batch's test names): per line (test name, kind) - the kind only when
+// the text after the split is the message that was formatted
+func verifC12Print(args []vsx) vsx {
+	reqs := make([]verifC12Req, len(args[0].l))
+	names := map[string]struct{}{}
+	for i, a := range args[0].l {
+		reqs[i] = verifC12Decode(a)
+		if len(reqs[i].h[7]) > 0 {
+			names[reqs[i].h[7][0]] = struct{}{}
+		} else {
+			names[""] = struct{}{}
+		}
+	}
+	var buf bytes.Buffer
+	rec := &verifC12Printer{}
+	tee := &verifC12Tee{rec: rec, real: internal.NewPrinter(&buf)}
+	called := false
+	handler := referenceServerChecks(http.HandlerFunc(func(http.ResponseWriter, *http.Request) { called = true }), tee)
+	const space = " \t\n\v\f\r"
+	out := make([]vsx, len(reqs))
+	for i, r := range reqs {
+		rec.msgs, called = nil, false
+		mark := buf.Len()
+		handler.ServeHTTP(httptest.NewRecorder(), r.build())
+		delta := append([]byte(nil), buf.Bytes()[mark:]...)
+		if !called {
+			if len(delta) != 0 || len(rec.msgs) != 0 {
+				out[i] = vErr("rejected-but-wrote")
+			} else {
+				out[i] = vL(vS("rejected"))
+			}
+			continue
+		}
+		name := r.h[7][0]
+		var want []byte
+		texts := make([]string, len(rec.msgs))
+		for j, m := range rec.msgs {
+			texts[j] = fmt.Sprintf(m.format, m.args...)
+			want = append(want, name+": "+texts[j]...)
+			if !strings.HasSuffix(texts[j], "\n") {
+				want = append(want, '\n')
+			}
+		}
+		var lines []string
+		for _, l := range strings.Split(string(delta), "\n") {
+			if strings.TrimSpace(l) != "" {
+				lines = append(lines, l)
+			}
+		}
+		var attributed vsx
+		if len(lines) != len(rec.msgs) {
+			attributed = vErr("line-count")
+		} else {
+			ls := make([]vsx, len(lines))
+			for j, l := range lines {
+				parts := strings.SplitN(strings.TrimSpace(l), ": ", 2)
+				_, known := names[parts[0]]
+				switch {
+				case len(parts) != 2 || !known:
+					ls[j] = vErr("unattributed")
+				case parts[1] != strings.TrimRight(texts[j], space):
+					ls[j] = vL(vS(parts[0]), vErr("garbled-message"))
+				default:
+					ls[j] = vL(vS(parts[0]), verifC12Kind(rec.msgs[j]))
+				}
+			}
+			attributed = vL(ls...)
+		}
+		out[i] = vL(vBool(bytes.Equal(delta, want)), attributed)
+	}
+	return vL(out...)
 }
